@@ -273,8 +273,14 @@ func (p *Path) equals(t types.Type, x, y Value) *Term {
 		return ts.Bool(x == y.(*ChanV))
 	case []Value:
 		// only comparison to nil is legal
+		if _, abs := y.(*AbsBytes); abs {
+			return ts.Bool(false)
+		}
 		ys := y.([]Value)
 		return ts.Bool(x == nil && ys == nil)
+	case *AbsBytes:
+		// an opaque byte slice is never nil
+		return ts.Bool(false)
 	case StructV:
 		ys := y.(StructV)
 		r := ts.Bool(true)
